@@ -274,6 +274,8 @@ pub fn obj_strategy(idx: usize, session_oti: OtiSpec, o: ObjOpts) -> BoxedStrate
                 immediate_stop: None,
                 source,
                 reserve_toi: reserve,
+                // (seed-derived: half of the stream sources are handed over with the cursor somewhere inside)
+                stream_start: if seed % 2 == 0 { 0 } else { (seed >> 3) as u16 },
             }
         })
         .boxed()
